@@ -5,6 +5,8 @@ package main
 // merged with ite-terms instead of forking (e.g. `if v { p[i] = 1 } else { p[i] = 0 }` inside a loop).
 
 import (
+	"go/types"
+
 	"golang.org/x/tools/go/ssa"
 )
 
@@ -49,6 +51,20 @@ func (e *Engine) tryDiamond(st *State, f *Frame, c *Term) bool {
 	join, ok := diamondJoin(b0, b1)
 	if !ok {
 		return false
+	}
+	// values of type int/uint are typically indices, lengths and loop bounds: merging them into
+	// ite-terms (e.g. the bounds of a binary search) makes later indexing symbolic, so such diamonds fork
+	for _, in := range join.Instrs {
+		p, isPhi := in.(*ssa.Phi)
+		if !isPhi {
+			break
+		}
+		if b, isBasic := p.Type().Underlying().(*types.Basic); isBasic {
+			switch b.Kind() {
+			case types.Int, types.Uint, types.Uintptr, types.Int64, types.Uint64:
+				return false
+			}
+		}
 	}
 	e.flush(st)
 	head := f.block
